@@ -55,6 +55,9 @@ var (
 		"https://node.TEST", "https://example.com", "https://example.net", "https://www.example.org", "https://EXAMPLE.org",
 		"https://node.lan", "https://node.home", "https://node.host", "https://node.corp", "https://node.localdomain",
 		"https://example.com.", "https://node.test.",
+		// the same classes written with surrounding white space and with the scheme in capitals (classified on the trimmed value)
+		" http://nuts.verif-node.nl", "http://nuts.verif-node.nl ", "\thttps://192.0.2.10", " https://localhost", "https://node.test\n",
+		"HTTPS://192.0.2.10", "hTTp://nuts.verif-node.nl", "Https://LOCALHOST", " https://nuts.verif-node.nl",
 	}
 	// accepted-looking oddities that the statement does not speak about: outcome recorded as observation only
 	urlsObserved = []string{"https://127.1", "https://2130706433", "https://0x7f.0.0.1", "https://0177.0.0.1", "https://nuts",
@@ -78,6 +81,10 @@ type nodeCase struct {
 	Flag     string    `json:"flag,omitempty"`
 	Source   string    `json:"source,omitempty"` // cli-eq | cli-sp | env | file | config-cmd
 	MustFail bool      `json:"must_fail,omitempty"`
+	// Iso: run the start in a child process (values that may take the whole process down: zero / negative / huge numbers)
+	Iso bool `json:"iso,omitempty"`
+	// ObserveOnly: the statement does not say what this spelling means (e.g. strictmode "yes"): outcome reported, never a violation
+	ObserveOnly bool `json:"observe_only,omitempty"`
 }
 
 func buildCfgCases(thorough bool) []nodeCase {
@@ -181,6 +188,7 @@ type actionObs struct {
 	VDRRedirHits  int                 `json:"vdr_redirect_hits"`      // did:web resolution, https -> 302 -> http
 	VDRRedir      string              `json:"vdr_redirect,omitempty"` // "resolved" | "refused" | "n/a"
 	Owned         map[string]ownedObs `json:"owned_clients,omitempty"`
+	Global        map[string]ownedObs `json:"global_clients,omitempty"` // every caller of outbound_test.go, against the process state this node's start left
 	Flows         []string            `json:"rfc021,omitempty"`
 }
 
@@ -332,6 +340,7 @@ func actions(c nodeCfg, sys *core.System, base string) actionObs {
 	// every strict node; with strict mode off only the configurations with at most one insecure setting (the rest adds nothing but time)
 	if c.Strict || len(c.insecureStart()) <= 1 {
 		o.Owned, o.Flows = ownedClientProbes(c, sys, startHits)
+		o.Global = globalClientProbes(c)
 	}
 	return o
 }
@@ -348,6 +357,7 @@ func sectionNode(t *testing.T, r *ev.Run) {
 		}
 	}
 	needDummyVP(t)
+	effectiveGuards(t)
 
 	cases := buildCfgCases(r.Thorough())
 	r.Bound("configurations", len(cases))
@@ -379,20 +389,34 @@ func needDummyVP(t *testing.T) {
 	}
 }
 
-func runCfgCase(t *testing.T, r *ev.Run, nc nodeCase) {
+// execCfgCase starts the node of one case and runs the action battery on it (no judging: also used by the child process of
+// isolated cases).
+func execCfgCase(t testing.TB, nc nodeCase) (startResult, actionObs) {
 	c := nc.Cfg
 	var obs actionObs
-	mkSpec := func() startSpec {
-		env := c.settings(t)
-		for _, name := range nc.Spec.Unset { // the gated option is decided by the config file
-			delete(env, name)
-		}
-		for k, v := range nc.Spec.Env { // spelling cases: the option as written by the operator
-			env[k] = v
-		}
-		return startSpec{Env: env, File: nc.Spec.File, Unset: nc.Spec.Unset, Files: ownedFiles} // File/Unset: the gating option of a "gating" case
+	res := runNode(t, cfgSpec(t, nc), func(sys *core.System, base string) { obs = actions(c, sys, base) })
+	return res, obs
+}
+
+func cfgSpec(t testing.TB, nc nodeCase) startSpec {
+	env := nc.Cfg.settings(t)
+	for _, name := range nc.Spec.Unset { // the gated option is decided by the config file
+		delete(env, name)
 	}
-	res := runNode(t, mkSpec(), func(sys *core.System, base string) { obs = actions(c, sys, base) })
+	for k, v := range nc.Spec.Env { // spelling cases: the option as written by the operator
+		env[k] = v
+	}
+	return startSpec{Env: env, File: nc.Spec.File, Args: nc.Spec.Args, Unset: nc.Spec.Unset, Files: ownedFiles} // File/Unset: the gating option of a "gating" case
+}
+
+func runCfgCase(t *testing.T, r *ev.Run, nc nodeCase) {
+	if nc.Iso {
+		out := runIsolated(t, []nodeCase{nc})
+		judgeCfgCase(r, nc, out[0].Res, out[0].Obs)
+		return
+	}
+	c := nc.Cfg
+	res, obs := execCfgCase(t, nc)
 	// "accepted with strict mode off" is the one direction in which a transient start-up failure of the sandbox (a port, NATS or
 	// SQLite hiccup on a loaded machine) would look like a violation: such a verdict has to reproduce twice more before it is believed.
 	failsNonStrict := func(res startResult, obs actionObs) bool {
@@ -405,12 +429,24 @@ func runCfgCase(t *testing.T, r *ev.Run, nc nodeCase) {
 		return (strings.Contains(c.Validators, "dummy") && obs.DummyFlow != "ok") || obs.LDUnlisted == "refused" || obs.IAMPlain == "refused"
 	}
 	for retry := 0; retry < 2 && failsNonStrict(res, obs); retry++ {
-		var obs2 actionObs
-		res2 := runNode(t, mkSpec(), func(sys *core.System, base string) { obs2 = actions(c, sys, base) })
+		res2, obs2 := execCfgCase(t, nc)
 		if !failsNonStrict(res2, obs2) || refusalClass(res2.Refusal) != refusalClass(res.Refusal) {
 			r.AssumptionCheck("start-up verdicts are reproducible", false, fmt.Sprintf("%s: first run %q / %+v, repeat %q", ev.Key(c), res.Refusal, obs, res2.Refusal))
 			res, obs = res2, obs2
 		}
+	}
+	judgeCfgCase(r, nc, res, obs)
+}
+
+// judgeCfgCase applies the oracle to the outcome of one case.
+func judgeCfgCase(r *ev.Run, nc nodeCase, res startResult, obs actionObs) {
+	c := nc.Cfg
+	if res.Crashed != "" {
+		// the child process that ran this start died or hung: a crash is not a verdict of the property (the node is not running)
+		r.Eval(nc.Kind + nc.Flag + ev.Key(c))
+		r.Outcome(nc.Kind + ": the node process died or hung")
+		r.Observation("the node process dies or hangs at start-up with "+nc.Flag+" (outside this property; not started)", res.Crashed)
+		return
 	}
 	r.Eval(nc.Kind + nc.Flag + ev.Key(c))
 	ins := c.insecureStart()
@@ -423,10 +459,17 @@ func runCfgCase(t *testing.T, r *ev.Run, nc nodeCase) {
 	if nc.Kind == "spelling" {
 		// the insecure value of a name-valued option, spelled differently (case, spaces, position in a list, duplicates)
 		r.Outcome(fmt.Sprintf("spelling: insecure-at-start=%v %s", len(ins) > 0, verdict))
+		if nc.ObserveOnly {
+			if len(ins) > 0 && res.Started {
+				r.Observation("an insecure configuration starts when the option is written as "+nc.Flag+" (the statement does not say what that spelling means)", sig)
+			}
+			return
+		}
 		if len(ins) > 0 && res.Started {
 			r.Violation("C20|node|strict-started|"+sig+"|spelling", fmt.Sprintf("strict mode on, configuration is insecure (%s) but with the value written as %s the node started", sig, nc.Flag), nc)
 		}
 		if res.Started {
+			judgeEffective(r, nc, c, res, "")
 			judgeActions(r, nc, c, res, obs, "|spelling")
 		}
 		return
@@ -445,6 +488,7 @@ func runCfgCase(t *testing.T, r *ev.Run, nc nodeCase) {
 		}
 		// action-level signatures carry no gating suffix: a defect that does not depend on the gate would otherwise be reported once per
 		// gate value; the replay case names the gate
+		judgeEffective(r, nc, c, res, "")
 		judgeActions(r, nc, c, res, obs, "")
 		return
 	}
@@ -468,12 +512,14 @@ func runCfgCase(t *testing.T, r *ev.Run, nc nodeCase) {
 	if !res.Started {
 		return
 	}
+	judgeEffective(r, nc, c, res, "")
 	judgeActions(r, nc, c, res, obs, "")
 }
 
 // judgeActions: the clauses judged at the action, on a node that started. sfx is appended to violation signatures (gating cases).
 func judgeActions(r *ev.Run, nc nodeCase, c nodeCfg, res startResult, obs actionObs, sfx string) {
 	judgeOwned(r, nc, c, obs.Owned, obs.Flows, sfx)
+	judgeGlobal(r, nc, c, obs.Global, sfx)
 	if c.Strict && c.TLS == "disabled" && res.GRPCOpen {
 		r.Violation("C20|node|tls-off|grpc-listening"+sfx, "strict mode on, no TLS certificate configured, yet the gRPC network address accepts connections: "+ev.Key(c), nc)
 	}
